@@ -164,3 +164,588 @@ Section Live.
     intro F. apply Live_eq; try apply F; apply (xf_p _ _ F).
   Qed.
 End Live.
+
+(* ================================================================== the dispatch side *)
+Lemma map_set_nth_same {A B} (f : A -> B) i x y (l : list A) :
+  nth_error l i = Some x -> f y = f x -> map f (set_nth i y l) = map f l.
+Proof.
+  revert i; induction l as [|z r IH]; intros [|i]; cbn [nth_error set_nth map]; try discriminate.
+  - intros [= ->] E. rewrite E. reflexivity.
+  - intros H E. rewrite (IH i H E). reflexivity.
+Qed.
+
+Definition pclass (p : phase) := (ph_polled p, ph_aband p, ph_closing p, ph_done p).
+
+Lemma cP_gW_le_gA l id : (cP gW l id <= cP gA l id)%nat.
+Proof.
+  unfold cP. induction l as [|k r IH]; [cbn; lia|]. rewrite !cnt_cons.
+  destruct (c_phase k); cbn [gW gA andb b2n]; destruct (N.eqb (c_id k) id); cbn [b2n]; lia.
+Qed.
+
+Section Dispatch.
+  Context {T : Type}.
+  Variable tp : transport T cmsg resp.
+  Notation cstate := (@cstate T).
+  Implicit Types s : cstate.
+
+  Definition cls s := map (fun k => pclass (c_phase k)) (calls s).
+
+  Lemma cls_phase_calls l i k p :
+    nth_error l i = Some k -> pclass p = pclass (c_phase k) ->
+    map (fun k => pclass (c_phase k)) (phase_calls l i p) = map (fun k => pclass (c_phase k)) l.
+  Proof.
+    intros H E. unfold phase_calls. rewrite H.
+    apply (map_set_nth_same (fun k0 => pclass (c_phase k0)) i k (with_phase k p) l H). exact E.
+  Qed.
+
+  Lemma release_permit_shape s :
+    winv s ->
+    (waiters s = [] /\ calls (release_permit s) = calls s /\ waiters (release_permit s) = []) \/
+    (exists w ws k, waiters s = w :: ws /\ nth_error (calls s) w = Some k /\
+       c_phase k = PAcquiring /\ calls (release_permit s) = phase_calls (calls s) w PAssigned /\
+       waiters (release_permit s) = ws).
+  Proof.
+    intros [A N]. unfold release_permit. destruct (waiters s) as [|w ws] eqn:E.
+    - left. repeat split.
+    - right. destruct (A w (or_introl eq_refl)) as (k & Hk & Hp). exists w, ws, k.
+      rewrite set_phase_alt. repeat split; assumption.
+  Qed.
+
+  Lemma release_permit_other s :
+    queue (release_permit s) = queue s /\ inflight (release_permit s) = inflight s /\
+    slots (release_permit s) = slots s /\ cancels (release_permit s) = cancels s /\
+    next_id (release_permit s) = next_id s /\ dropped (release_permit s) = dropped s /\
+    handles (release_permit s) = handles s.
+  Proof.
+    unfold release_permit. destruct (waiters s); [repeat split|].
+    rewrite set_phase_alt. repeat split.
+  Qed.
+
+  Lemma cP_release_permit g s id :
+    winv s -> g PAcquiring = g PAssigned ->
+    cP g (calls (release_permit s)) id = cP g (calls s) id.
+  Proof.
+    intros W E. destruct (release_permit_shape s W) as [(_ & -> & _)|(w & ws & k & _ & Hk & Hp & -> & _)];
+      [reflexivity|].
+    pose proof (cP_phase_calls g _ _ _ PAssigned id Hk) as H. rewrite Hp, E in H. lia.
+  Qed.
+
+  Lemma cls_release_permit s : winv s -> cls (release_permit s) = cls s.
+  Proof.
+    intro W. unfold cls.
+    destruct (release_permit_shape s W) as [(_ & -> & _)|(w & ws & k & _ & Hk & Hp & -> & _)];
+      [reflexivity|].
+    apply (cls_phase_calls _ _ _ _ Hk). rewrite Hp. reflexivity.
+  Qed.
+
+  Lemma winv_release_permit s : winv s -> winv (release_permit s).
+  Proof.
+    intro W. destruct (release_permit_shape s W) as [(_ & Ec & Ew)|(w & ws & k & E & Hk & Hp & Ec & Ew)].
+    - constructor; rewrite Ew; [intros ? []|constructor].
+    - destruct W as [A N]. rewrite E in A, N. apply NoDup_cons_iff in N. destruct N as [Hni Hnd].
+      constructor; rewrite Ew; [|exact Hnd].
+      intros w' Hw'. destruct (A w' (or_intror Hw')) as (c & Hc & Hpc). exists c. split; [|exact Hpc].
+      rewrite Ec, nth_error_phase_calls. destruct (Nat.eqb w w') eqn:E2; [|exact Hc].
+      apply Nat.eqb_eq in E2. subst. contradiction.
+  Qed.
+
+  (* a queued request in transit: popped from the queue, not yet skipped or tracked *)
+  Record LiveT (q : qitem) s : Prop := {
+    lt_live : Live s;
+    lt_zero : TT s (q_id q) = 0%nat;
+    lt_fresh : (q_id q < next_id s)%N;
+    lt_ndone : slot_done (get_slot s (q_id q)) = false;
+    lt_cov : sl_rx_closed (get_slot s (q_id q)) = true \/ (1 <= CW s (q_id q))%nat }.
+
+  Lemma Live_pop s q r :
+    Live s -> queue s = q :: r ->
+    LiveT q (release_permit (upd_q s (permits s) r (waiters s) (rx_closed s))) /\
+    cls (release_permit (upd_q s (permits s) r (waiters s) (rx_closed s))) = cls s.
+  Proof.
+    intros L Eq. set (s0 := upd_q s (permits s) r (waiters s) (rx_closed s)).
+    assert (W0 : winv s0) by (eapply winv_frame; [apply L|reflexivity|reflexivity]).
+    pose proof (release_permit_other s0) as (R1 & R2 & R3 & R4 & R5 & R6 & R7).
+    set (s1 := release_permit s0) in *.
+    assert (ES : forall id, CS s1 id = CS s id) by (intro; apply (cP_release_permit gS s0 id W0); reflexivity).
+    assert (EA : forall id, CA s1 id = CA s id) by (intro; apply (cP_release_permit gA s0 id W0); reflexivity).
+    assert (EW : forall id, CW s1 id = CW s id) by (intro; apply (cP_release_permit gW s0 id W0); reflexivity).
+    assert (EQ : forall id, CQ s id = (b2n (N.eqb (q_id q) id) + CQ s1 id)%nat).
+    { intro id. unfold CQ. rewrite R1, Eq. unfold cQ. rewrite cnt_cons. reflexivity. }
+    assert (EI : forall id, CI s1 id = CI s id) by (intro; unfold CI; rewrite R2; reflexivity).
+    assert (EG : forall id, get_slot s1 id = get_slot s id) by (intro; unfold get_slot; rewrite R3; reflexivity).
+    assert (ET : forall id, TT s id = (b2n (N.eqb (q_id q) id) + TT s1 id)%nat).
+    { intro id. unfold TT. rewrite ES, EI, (EQ id). lia. }
+    destruct L as [LD LW LU LF LN LC LQ].
+    assert (L1 : Live s1).
+    { constructor.
+      - rewrite R6. exact LD.
+      - apply winv_release_permit, W0.
+      - intro id. specialize (LU id). rewrite ET in LU. lia.
+      - intros id H. rewrite R5 in H. specialize (LF id H). rewrite ET in LF. lia.
+      - intros id H. rewrite EG. apply LN. rewrite ET. lia.
+      - intros id H. rewrite R4, EA. apply LC. rewrite <- EI. exact H.
+      - intros id H. rewrite EG, EW. apply LQ. rewrite EQ. lia. }
+    split; [|apply (cls_release_permit s0 W0)].
+    assert (P : (1 <= CQ s (q_id q))%nat) by (rewrite EQ, N.eqb_refl; cbn; lia).
+    constructor.
+    - exact L1.
+    - specialize (LU (q_id q)). rewrite ET, N.eqb_refl in LU. cbn in LU. lia.
+    - rewrite R5. destruct (N.lt_ge_cases (q_id q) (next_id s)) as [H|H]; [exact H|].
+      specialize (LF _ H). unfold TT in LF. lia.
+    - rewrite EG. apply LN. unfold TT. lia.
+    - rewrite EG, EW. apply LQ, P.
+  Qed.
+
+  (* settling (or resetting) the oneshot of an id that is in no stage *)
+  Lemma Live_set_slot_untracked s id x : Live s -> TT s id = 0%nat -> Live (set_slot s id x).
+  Proof.
+    intros [LD LW LU LF LN LC LQ] Z.
+    constructor; try assumption.
+    - eapply winv_frame; [exact LW|reflexivity|reflexivity].
+    - intros id' H. rewrite get_set_slot. destruct (N.eqb id' id) eqn:E.
+      + apply N.eqb_eq in E. subst id'. change (TT (set_slot s id x) id) with (TT s id) in H. lia.
+      + apply LN, H.
+    - intros id' H. rewrite get_set_slot. destruct (N.eqb id' id) eqn:E.
+      + apply N.eqb_eq in E. subst id'. change (CQ (set_slot s id x) id) with (CQ s id) in H.
+        unfold TT in Z. lia.
+      + apply LQ, H.
+  Qed.
+
+  Lemma Live_skip s q : LiveT q s -> Live (slot_tx_drop s (q_id q)).
+  Proof. intros [L Z _ _ _]. apply Live_set_slot_untracked; assumption. Qed.
+
+  Lemma Live_insert s q :
+    LiveT q s -> sl_rx_closed (get_slot s (q_id q)) = false -> Live (insert_request s q).
+  Proof.
+    intros [[LD LW LU LF LN LC LQ] Z Fr Nd Cv] Rx. unfold insert_request.
+    set (s1 := upd_if s _ _).
+    assert (EI : forall id, CI s1 id = if N.eqb id (q_id q) then 1%nat else CI s id).
+    { intro id. unfold CI, s1. cbn [inflight upd_if]. apply cI_aset. }
+    assert (ET : forall id, TT s1 id = if N.eqb id (q_id q) then 1%nat else TT s id).
+    { intro id. unfold TT. rewrite EI. change (CS s1 id) with (CS s id). change (CQ s1 id) with (CQ s id).
+      destruct (N.eqb id (q_id q)) eqn:E; [|reflexivity]. apply N.eqb_eq in E. subst id.
+      unfold TT in Z. lia. }
+    constructor; try assumption.
+    - eapply winv_frame; [exact LW|reflexivity|reflexivity].
+    - intro id. rewrite ET. destruct (N.eqb id (q_id q)); [lia|apply LU].
+    - intros id H. rewrite ET. destruct (N.eqb id (q_id q)) eqn:E; [|apply LF, H].
+      apply N.eqb_eq in E. subst id. change (next_id s1) with (next_id s) in H. lia.
+    - intros id H. change (get_slot s1 id) with (get_slot s id). rewrite ET in H.
+      destruct (N.eqb id (q_id q)) eqn:E; [|apply LN, H]. apply N.eqb_eq in E. subst id. exact Nd.
+    - intros id H. change (cancels s1) with (cancels s). change (CA s1 id) with (CA s id).
+      rewrite EI in H. destruct (N.eqb id (q_id q)) eqn:E; [|apply LC, H].
+      apply N.eqb_eq in E. subst id. right. destruct Cv as [Cv|Cv]; [congruence|].
+      pose proof (cP_gW_le_gA (calls s) (q_id q)). unfold CW, CA in *. lia.
+  Qed.
+
+  (* an id leaves the in-flight table (any timer table) *)
+  Lemma Live_remove s id t : Live s -> Live (upd_if s (aremove id (inflight s)) t).
+  Proof.
+    intros [LD LW LU LF LN LC LQ]. set (s1 := upd_if s _ _).
+    assert (EI : forall id', CI s1 id' = if N.eqb id' id then 0%nat else CI s id').
+    { intro id'. unfold CI, s1. cbn [inflight upd_if]. apply cI_aremove. }
+    assert (ET : forall id', (TT s1 id' <= TT s id')%nat).
+    { intro id'. unfold TT. rewrite EI. change (CS s1 id') with (CS s id').
+      change (CQ s1 id') with (CQ s id'). destruct (N.eqb id' id); lia. }
+    constructor; try assumption.
+    - eapply winv_frame; [exact LW|reflexivity|reflexivity].
+    - intro id'. specialize (LU id'). specialize (ET id'). lia.
+    - intros id' H. specialize (LF id' H). specialize (ET id'). lia.
+    - intros id' H. apply LN. specialize (ET id'). lia.
+    - intros id' H. apply LC. rewrite EI in H. destruct (N.eqb id' id); [lia|exact H].
+  Qed.
+  Lemma TT_remove_zero s id t :
+    Live s -> (1 <= CI s id)%nat -> TT (upd_if s (aremove id (inflight s)) t) id = 0%nat.
+  Proof.
+    intros L H. pose proof (l_uniq _ L id) as U. unfold TT in *.
+    change (CS (upd_if s (aremove id (inflight s)) t) id) with (CS s id).
+    change (CQ (upd_if s (aremove id (inflight s)) t) id) with (CQ s id).
+    unfold CI at 1. cbn [inflight upd_if]. rewrite cI_aremove, N.eqb_refl. lia.
+  Qed.
+
+  Lemma Live_slot_send_untracked s id o : Live s -> TT s id = 0%nat -> Live (slot_send s id o).
+  Proof. intros L Z. rewrite slot_send_alt. apply Live_set_slot_untracked; assumption. Qed.
+
+  Lemma alookup_some_CI s id e : alookup id (inflight s) = Some e -> (1 <= CI s id)%nat.
+  Proof. intro H. apply cI_pos_In. apply alookup_in in H. apply (in_map fst) in H. exact H. Qed.
+  Lemma alookup_none_CI s id : alookup id (inflight s) = None -> CI s id = 0%nat.
+  Proof.
+    intro H. apply alookup_none_notin in H. destruct (CI s id) eqn:E; [reflexivity|].
+    exfalso. apply H, cI_pos_In. unfold CI in E. lia.
+  Qed.
+
+  Lemma Live_complete_request s id o : Live s -> Live (snd (complete_request s id o)).
+  Proof.
+    intro L. unfold complete_request. destruct (alookup id (inflight s)) eqn:E; cbn [snd]; [|exact L].
+    apply Live_slot_send_untracked; [apply Live_remove, L|].
+    apply TT_remove_zero; [exact L|eapply alookup_some_CI, E].
+  Qed.
+  Lemma calls_complete_request s id o : calls (snd (complete_request s id o)) = calls s.
+  Proof. apply (tf_calls _ _ (TFrame_complete_request s id o)). Qed.
+
+  Lemma Live_poll_expired s : Live s -> Live (snd (poll_expired s)).
+  Proof.
+    intro L. unfold poll_expired. destruct (min_timer (timers s) None) as [[id w]|]; [|exact L].
+    destruct (N.leb w (now s)); [|exact L]. cbn [inflight timers upd_if].
+    destruct (alookup id (inflight s)) eqn:E; cbn [snd].
+    - apply Live_slot_send_untracked.
+      + apply (Live_remove (upd_if s (inflight s) (aremove id (timers s))) id).
+        eapply Live_eq; [..|exact L]; reflexivity.
+      + apply (TT_remove_zero (upd_if s (inflight s) (aremove id (timers s))) id).
+        * eapply Live_eq; [..|exact L]; reflexivity.
+        * eapply alookup_some_CI, E.
+    - eapply Live_eq; [..|exact L]; reflexivity.
+  Qed.
+
+  Lemma Live_cancel_pop s id r :
+    Live s -> cancels s = id :: r -> Live (snd (cancel_request (upd_cancels s r) id)).
+  Proof.
+    intros L Ec. unfold cancel_request. cbn [inflight timers upd_cancels].
+    destruct (alookup id (inflight s)) eqn:E; cbn [snd].
+    - pose proof (Live_remove s id (aremove id (timers s)) L) as [LD LW LU LF LN LC LQ].
+      constructor; try assumption.
+      { eapply winv_frame; [exact LW|reflexivity|reflexivity]. }
+      intros id' H. cbn [cancels upd_if upd_cancels].
+      assert (Hne : id' <> id).
+      { intro; subst id'. unfold CI in H. cbn [inflight upd_if upd_cancels] in H.
+        rewrite cI_aremove, N.eqb_refl in H. lia. }
+      destruct (LC id' H) as [X|X]; [|right; exact X].
+      cbn [cancels upd_if] in X. rewrite Ec in X. destruct X as [X|X]; [congruence|left; exact X].
+    - destruct L as [LD LW LU LF LN LC LQ]. constructor; try assumption.
+      { eapply winv_frame; [exact LW|reflexivity|reflexivity]. }
+      intros id' H. cbn [cancels upd_cancels].
+      assert (Hne : id' <> id).
+      { intro; subst id'. pose proof (alookup_none_CI s id E) as Z.
+        change (CI (upd_cancels s r) id) with (CI s id) in H. lia. }
+      destruct (LC id' H) as [X|X]; [|right; exact X].
+      rewrite Ec in X. destruct X as [X|X]; [congruence|left; exact X].
+  Qed.
+
+  (* ---------------------------------------------------------------- composites *)
+  Lemma cls_eq s s' : calls s' = calls s -> cls s' = cls s.
+  Proof. intro E. unfold cls. rewrite E. reflexivity. Qed.
+
+  Definition LC s s' : Prop := Live s' /\ cls s' = cls s.
+  Lemma LC_X s s' : XFrame s s' -> Live s -> LC s s'.
+  Proof. intros F L. split; [eapply Live_X; eassumption|apply cls_eq, F]. Qed.
+  Lemma LC_trans s1 s2 s3 : LC s1 s2 -> (Live s2 -> LC s2 s3) -> LC s1 s3.
+  Proof. intros [L1 E1] H. destruct (H L1) as [L2 E2]. split; [exact L2|congruence]. Qed.
+
+  Lemma Live_next_request_loop f : forall s r s',
+    Live s -> next_request_loop f s = (r, s') ->
+    cls s' = cls s /\
+    match r with
+    | PSome q => LiveT q s' /\ sl_rx_closed (get_slot s' (q_id q)) = false
+    | _ => Live s'
+    end.
+  Proof.
+    induction f as [|f IH]; intros s r s' L; cbn [next_request_loop];
+      [intros [= <- <-]; split; [reflexivity|exact L]|].
+    unfold q_poll_recv. destruct (queue s) as [|q rest] eqn:Eq.
+    - destruct (Nat.eqb _ _); [intros [= <- <-]; split; [reflexivity|exact L]|].
+      destruct (_ && _); intros [= <- <-]; (split; [reflexivity|exact L]).
+    - destruct (Live_pop s q rest L Eq) as [LT Ec].
+      set (s1 := release_permit _) in *.
+      destruct (sl_rx_closed (get_slot s1 (q_id q))) eqn:Rx.
+      + intro H. apply IH in H; [|apply Live_skip, LT]. destruct H as [E2 H]. split; [|exact H].
+        rewrite E2. rewrite <- Ec. apply cls_eq. reflexivity.
+      + intros [= <- <-]. split; [exact Ec|]. split; assumption.
+  Qed.
+
+  Lemma Live_next_cancel_loop f : forall s r s',
+    Live s -> next_cancel_loop f s = (r, s') -> LC s s'.
+  Proof.
+    induction f as [|f IH]; intros s r s' L; cbn [next_cancel_loop];
+      [intros [= <- <-]; split; [exact L|reflexivity]|].
+    unfold c_poll_recv. destruct (cancels s) as [|id rest] eqn:Ec.
+    - destruct (Nat.eqb _ _); intros [= <- <-]; (split; [exact L|reflexivity]).
+    - pose proof (Live_cancel_pop s id rest L Ec) as L2.
+      pose proof (tf_calls _ _ (TFrame_cancel_request (upd_cancels s rest) id)) as E2.
+      destruct (cancel_request (upd_cancels s rest) id) as [[e|] s2]; cbn [snd] in *.
+      + intros [= <- <-]. split; [exact L2|apply cls_eq, E2].
+      + intro H. apply IH in H; [|exact L2]. destruct H as [L3 E3]. split; [exact L3|].
+        rewrite E3. apply cls_eq, E2.
+  Qed.
+
+  Lemma Live_poll_write_request s r s' : Live s -> poll_write_request tp s = (r, s') -> LC s s'.
+  Proof.
+    intros L H. apply poll_write_request_inv in H.
+    destruct H as [_|r s1 _ H1 Hr|r s1 s2 _ H1 H2 Hr|s1 q s2 w s3 _ H1 H2 H3].
+    - split; [exact L|reflexivity].
+    - apply LC_X; [eapply XFrame_ensure_writeable, H1|exact L].
+    - eapply LC_trans; [apply LC_X; [eapply XFrame_ensure_writeable, H1|exact L]|].
+      intro L1. destruct (Live_next_request_loop _ _ _ _ L1 H2) as [E2 L2].
+      split; [|exact E2]. destruct r; try exact L2. discriminate.
+    - eapply LC_trans; [apply LC_X; [eapply XFrame_ensure_writeable, H1|exact L]|].
+      intro L1. destruct (Live_next_request_loop _ _ _ _ L1 H2) as [E2 [LT Rx]].
+      pose proof (Live_insert s2 q LT Rx) as L3.
+      pose proof (XFrame_do_send _ _ _ _ _ H3) as F3.
+      assert (L4 : Live s3) by (eapply Live_X; eassumption).
+      assert (E4 : cls s3 = cls s1).
+      { rewrite <- E2. apply cls_eq. rewrite (xf_calls _ _ F3). reflexivity. }
+      destruct w; [split; assumption|].
+      split; [apply Live_complete_request, L4|].
+      rewrite <- E4. apply cls_eq, calls_complete_request.
+  Qed.
+
+  Lemma Live_poll_write_cancel s r s' : Live s -> poll_write_cancel tp s = (r, s') -> LC s s'.
+  Proof.
+    intros L H. apply poll_write_cancel_inv in H.
+    destruct H as [r s1 H1 Hr|r s1 s2 H1 H2 Hr|s1 id e s2 w s3 H1 H2 H3].
+    - apply LC_X; [eapply XFrame_ensure_writeable, H1|exact L].
+    - eapply LC_trans; [apply LC_X; [eapply XFrame_ensure_writeable, H1|exact L]|].
+      intro L1. eapply Live_next_cancel_loop; eassumption.
+    - eapply LC_trans; [apply LC_X; [eapply XFrame_ensure_writeable, H1|exact L]|].
+      intro L1. eapply LC_trans; [eapply Live_next_cancel_loop; eassumption|].
+      intro L2. apply LC_X; [eapply XFrame_do_send, H3|exact L2].
+  Qed.
+
+  Lemma LC_poll_expired s e s' : Live s -> poll_expired s = (e, s') -> LC s s'.
+  Proof.
+    intros L H. pose proof (Live_poll_expired s L) as L1.
+    pose proof (tf_calls _ _ (TFrame_poll_expired s)) as E1. rewrite H in L1, E1.
+    split; [exact L1|apply cls_eq, E1].
+  Qed.
+
+  Lemma Live_pump_write s r s' : Live s -> pump_write tp s = (r, s') -> LC s s'.
+  Proof.
+    intros L H. apply pump_write_inv in H.
+    destruct H as [a s1 H1|u s1 H1|r1 s1 a s2 H1 I1 H2|r1 s1 u s2 H1 I1 H2
+                  |r1 s1 r2 s2 id s3 H1 I1 H2 I2 H3|s1 s2 s3 x s4 H1 H2 H3 H4
+                  |r1 s1 r2 s2 s3 x s4 H1 I1 H2 I2 I12 H3 H4].
+    - eapply Live_poll_write_request; eassumption.
+    - eapply Live_poll_write_request; eassumption.
+    - eapply LC_trans; [eapply Live_poll_write_request; eassumption|].
+      intro L1. eapply Live_poll_write_cancel; eassumption.
+    - eapply LC_trans; [eapply Live_poll_write_request; eassumption|].
+      intro L1. eapply Live_poll_write_cancel; eassumption.
+    - eapply LC_trans; [eapply Live_poll_write_request; eassumption|].
+      intro L1. eapply LC_trans; [eapply Live_poll_write_cancel; eassumption|].
+      intro L2. eapply LC_poll_expired; eassumption.
+    - eapply LC_trans; [eapply Live_poll_write_request; eassumption|].
+      intro L1. eapply LC_trans; [eapply Live_poll_write_cancel; eassumption|].
+      intro L2. eapply LC_trans; [eapply LC_poll_expired; eassumption|].
+      intro L3. apply LC_X; [eapply XFrame_do_close, H4|exact L3].
+    - eapply LC_trans; [eapply Live_poll_write_request; eassumption|].
+      intro L1. eapply LC_trans; [eapply Live_poll_write_cancel; eassumption|].
+      intro L2. eapply LC_trans; [eapply LC_poll_expired; eassumption|].
+      intro L3. apply LC_X; [eapply XFrame_do_flush, H4|exact L3].
+  Qed.
+
+  Lemma Live_pump_read s r s' : Live s -> pump_read tp s = (r, s') -> LC s s'.
+  Proof.
+    intros L H. apply pump_read_inv in H. destruct H as (x & s1 & H1 & -> & ->).
+    pose proof (LC_X _ _ (XFrame_do_next _ _ _ _ H1) L) as L1.
+    destruct x; try exact L1.
+    eapply LC_trans; [exact L1|]. intro L2. split; [apply Live_complete_request, L2|].
+    apply cls_eq, calls_complete_request.
+  Qed.
+
+  Lemma Live_run_loop f : forall s r s', Live s -> run_loop tp f s = (r, s') -> LC s s'.
+  Proof.
+    induction f as [|f IH]; intros s r s' L H;
+      [cbn in H; injection H as _ <-; split; [exact L|reflexivity]|].
+    apply run_loop_inv in H.
+    destruct H as [a s1 H1|rd s1 a s2 H1 N1 H2|s1 wr s2 H1 H2 N2|rd s1 s2 H1 D1 H2 L2
+                  |s1 wr s2 H1 H2 D2|rd s1 wr s2 r s3 H1 H2 D H3].
+    - eapply Live_pump_read; eassumption.
+    - eapply LC_trans; [eapply Live_pump_read; eassumption|]. intro. eapply Live_pump_write; eassumption.
+    - eapply LC_trans; [eapply Live_pump_read; eassumption|]. intro. eapply Live_pump_write; eassumption.
+    - eapply LC_trans; [eapply Live_pump_read; eassumption|]. intro. eapply Live_pump_write; eassumption.
+    - eapply LC_trans; [eapply Live_pump_read; eassumption|]. intro. eapply Live_pump_write; eassumption.
+    - eapply LC_trans; [eapply Live_pump_read; eassumption|]. intro.
+      eapply LC_trans; [eapply Live_pump_write; eassumption|]. intro. eapply IH; eassumption.
+  Qed.
+End Dispatch.
+
+(* ================================================================== a clean idle poll drains
+   the cancellation queue *)
+Definition cleanc (c : tcall cmsg resp) : bool :=
+  match c with
+  | CReady TOk | CFlush TOk | CClose TOk | CSend _ SOk => true
+  | CNext (RItem _) | CNext RPending => true
+  | _ => false
+  end.
+Lemma clean_log_cleanc l : clean_log l = true -> forallb cleanc l = true.
+Proof. unfold clean_log. intro H. apply andb_true_iff in H. apply H. Qed.
+
+Section Drain.
+  Context {T : Type}.
+  Variable tp : transport T cmsg resp.
+  Notation cstate := (@cstate T).
+  Implicit Types s : cstate.
+
+  Definition Pre s s' : Prop := exists seg, plog s' = plog s ++ seg.
+  Lemma Pre_refl s : Pre s s.
+  Proof. exists []. rewrite app_nil_r. reflexivity. Qed.
+  Lemma Pre_trans s1 s2 s3 : Pre s1 s2 -> Pre s2 s3 -> Pre s1 s3.
+  Proof. intros [a Ha] [b Hb]. exists (a ++ b). rewrite Hb, Ha, app_assoc. reflexivity. Qed.
+  Lemma Pre_eq s s' : plog s' = plog s -> Pre s s'.
+  Proof. intro E. exists []. rewrite app_nil_r. exact E. Qed.
+  Lemma Pre_clean s s' :
+    Pre s s' -> forallb cleanc (plog s') = true -> forallb cleanc (plog s) = true.
+  Proof. intros [a Ha] H. rewrite Ha, forallb_app in H. apply andb_true_iff in H. apply H. Qed.
+
+  Lemma Pre_do_ready s r s' : do_ready tp s = (r, s') -> Pre s s'.
+  Proof. intro H. apply do_ready_eq in H. rewrite H. eexists. reflexivity. Qed.
+  Lemma Pre_do_flush s r s' : do_flush tp s = (r, s') -> Pre s s'.
+  Proof. intro H. apply do_flush_eq in H. rewrite H. eexists. reflexivity. Qed.
+  Lemma Pre_do_close s r s' : do_close tp s = (r, s') -> Pre s s'.
+  Proof. intro H. apply do_close_eq in H. rewrite H. eexists. reflexivity. Qed.
+
+  Lemma clean_last s s' x :
+    plog s' = plog s ++ [x] -> forallb cleanc (plog s') = true -> cleanc x = true.
+  Proof.
+    intros E H. rewrite E, forallb_app in H. apply andb_true_iff in H. destruct H as [_ H].
+    cbn in H. apply andb_true_iff in H. apply H.
+  Qed.
+
+  Lemma plog_do_ready s r s' : do_ready tp s = (r, s') -> plog s' = plog s ++ [CReady r].
+  Proof. intro H. apply do_ready_eq in H. rewrite H. reflexivity. Qed.
+
+  Lemma ew_clean s r s' :
+    ensure_writeable tp s = (r, s') -> forallb cleanc (plog s') = true -> r = PSome tt.
+  Proof.
+    intros H C. apply ensure_writeable_inv in H.
+    destruct H as [r s1 H1 Hr|s1 s2 H1 H2|s1 s2 H1 H2|s1 s2 r s3 H1 H2 H3].
+    - pose proof (clean_last _ _ _ (plog_do_ready _ _ _ H1) C) as X.
+      destruct r; try discriminate. reflexivity.
+    - exfalso. pose proof (Pre_clean _ _ (Pre_do_flush _ _ _ H2) C) as C1.
+      pose proof (clean_last _ _ _ (plog_do_ready _ _ _ H1) C1) as X. discriminate.
+    - exfalso. pose proof (Pre_clean _ _ (Pre_do_flush _ _ _ H2) C) as C1.
+      pose proof (clean_last _ _ _ (plog_do_ready _ _ _ H1) C1) as X. discriminate.
+    - exfalso. pose proof (Pre_clean _ _ (Pre_do_ready _ _ _ H3) C) as C2.
+      pose proof (Pre_clean _ _ (Pre_do_flush _ _ _ H2) C2) as C1.
+      pose proof (clean_last _ _ _ (plog_do_ready _ _ _ H1) C1) as X. discriminate.
+  Qed.
+
+  Lemma ncl_drained f : forall s r s',
+    (length (cancels s) < f)%nat -> next_cancel_loop f s = (r, s') -> is_psome r = false ->
+    cancels s' = [].
+  Proof.
+    induction f as [|f IH]; intros s r s' L; [lia|]. cbn [next_cancel_loop].
+    unfold c_poll_recv. destruct (cancels s) as [|id rest] eqn:Ec.
+    - destruct (Nat.eqb _ _); intros [= <- <-] _; exact Ec.
+    - pose proof (tf_cancels _ _ (TFrame_cancel_request (upd_cancels s rest) id)) as E2.
+      destruct (cancel_request (upd_cancels s rest) id) as [[e|] s2]; cbn [snd] in E2.
+      + intros [= <- <-]. discriminate.
+      + apply IH. rewrite E2. cbn [cancels upd_cancels]. cbn in L. lia.
+  Qed.
+
+  Lemma pwc_drained s r s' :
+    poll_write_cancel tp s = (r, s') -> forallb cleanc (plog s') = true -> idle r ->
+    cancels s' = [].
+  Proof.
+    intros H C I. apply poll_write_cancel_inv in H.
+    destruct H as [r s1 H1 Hr|r s1 s2 H1 H2 Hr|s1 id e s2 w s3 H1 H2 H3].
+    - apply ew_clean in H1; [|exact C]. subst r. discriminate.
+    - eapply ncl_drained; [|exact H2|exact Hr]. lia.
+    - exfalso. destruct w; destruct I; discriminate.
+  Qed.
+
+  Lemma pw_drained s r s' :
+    pump_write tp s = (r, s') -> forallb cleanc (plog s') = true -> idle r -> cancels s' = [].
+  Proof.
+    intros H C I. apply pump_write_inv in H.
+    destruct H as [a s1 H1|u s1 H1|r1 s1 a s2 H1 I1 H2|r1 s1 u s2 H1 I1 H2
+                  |r1 s1 r2 s2 id s3 H1 I1 H2 I2 H3|s1 s2 s3 x s4 H1 H2 H3 H4
+                  |r1 s1 r2 s2 s3 x s4 H1 I1 H2 I2 I12 H3 H4];
+      try (exfalso; destruct I; discriminate).
+    - pose proof (TFrame_poll_expired s2) as F3. rewrite H3 in F3. cbn [snd] in F3.
+      pose proof (XFrame_do_close _ _ _ _ H4) as F4.
+      rewrite (xf_cancels _ _ F4), (tf_cancels _ _ F3).
+      eapply pwc_drained; [exact H2| |left; reflexivity].
+      eapply Pre_clean; [|exact C].
+      eapply Pre_trans; [apply Pre_eq, (if_plog _ _ (tf_i _ _ F3))|eapply Pre_do_close, H4].
+    - pose proof (TFrame_poll_expired s2) as F3. rewrite H3 in F3. cbn [snd] in F3.
+      pose proof (XFrame_do_flush _ _ _ _ H4) as F4.
+      rewrite (xf_cancels _ _ F4), (tf_cancels _ _ F3).
+      eapply pwc_drained; [exact H2| |exact I2].
+      eapply Pre_clean; [|exact C].
+      eapply Pre_trans; [apply Pre_eq, (if_plog _ _ (tf_i _ _ F3))|eapply Pre_do_flush, H4].
+  Qed.
+
+  Lemma rl_drained f : forall s s',
+    run_loop tp f s = (RunPending, s') -> forallb cleanc (plog s') = true -> cancels s' = [].
+  Proof.
+    induction f as [|f IH]; intros s s' H C; [cbn in H; discriminate|].
+    apply run_loop_inv in H. remember RunPending as rr eqn:Er.
+    destruct H as [a s1 H1|rd s1 a s2 H1 N1 H2|s1 wr s2 H1 H2 N2|rd s1 s2 H1 D1 H2 L2
+                  |s1 wr s2 H1 H2 D2|rd s1 wr s2 r s3 H1 H2 D H3]; try discriminate.
+    - eapply pw_drained; [exact H2|exact C|]. destruct D2 as [-> |[-> _]]; [right|left]; reflexivity.
+    - subst r. eapply IH; eassumption.
+  Qed.
+End Drain.
+
+(* ================================================================== the user side *)
+Section User.
+  Context {T : Type}.
+  Variable tp : transport T cmsg resp.
+  Notation cstate := (@cstate T).
+  Implicit Types s : cstate.
+
+  (* call i changes phase; its oneshot may change; a cancellation may be queued *)
+  Lemma Live_phase s s' i k p1 x extra :
+    Live s -> nth_error (calls s) i = Some k ->
+    calls s' = phase_calls (calls s) i p1 -> queue s' = queue s -> inflight s' = inflight s ->
+    (forall id, get_slot s' id = if N.eqb id (c_id k) then x else get_slot s id) ->
+    cancels s' = cancels s ++ extra -> next_id s' = next_id s -> dropped s' = dropped s ->
+    winv s' ->
+    (gS p1 = true -> gS (c_phase k) = true) ->
+    (TT s (c_id k) = 0%nat \/ (gS (c_phase k) = true /\ gS p1 = false) \/
+     (slot_done (get_slot s (c_id k)) = false -> slot_done x = false)) ->
+    (CQ s (c_id k) = 0%nat \/ sl_rx_closed x = true \/
+     ((gW (c_phase k) = true -> gW p1 = true) /\
+      (sl_rx_closed (get_slot s (c_id k)) = true -> sl_rx_closed x = true))) ->
+    (gA (c_phase k) = true -> gA p1 = false -> In (c_id k) extra \/ CI s (c_id k) = 0%nat) ->
+    Live s'.
+  Proof.
+    intros [LD LW LU LF LN LC LQ] Hk Ec Eq Ei Es Ecan En Ed W' Ha Hnd Hrx Hcov.
+    set (id0 := c_id k) in *. set (p0 := c_phase k) in *.
+    assert (EP : forall g id, (cP g (calls s') id + b2n (g p0 && N.eqb id0 id)
+                               = cP g (calls s) id + b2n (g p1 && N.eqb id0 id))%nat).
+    { intros g id. rewrite Ec. apply cP_phase_calls, Hk. }
+    assert (EQ : forall id, CQ s' id = CQ s id) by (intro; unfold CQ; rewrite Eq; reflexivity).
+    assert (EI : forall id, CI s' id = CI s id) by (intro; unfold CI; rewrite Ei; reflexivity).
+    assert (ES : forall id, (CS s' id <= CS s id)%nat).
+    { intro id. pose proof (EP gS id) as H. unfold CS. destruct (N.eqb id0 id); cbn [andb b2n] in H.
+      - destruct (gS p1) eqn:G1; [rewrite (Ha eq_refl) in H|destruct (gS p0)]; cbn [andb b2n] in H; lia.
+      - rewrite !andb_false_r in H. cbn in H. lia. }
+    assert (ET : forall id, (TT s' id <= TT s id)%nat).
+    { intro id. unfold TT. rewrite EQ, EI. specialize (ES id). lia. }
+    assert (Eo : forall g id, id <> id0 -> cP g (calls s') id = cP g (calls s) id).
+    { intros g id Hne. pose proof (EP g id) as H.
+      assert (N.eqb id0 id = false) by (apply N.eqb_neq; congruence).
+      rewrite H0, !andb_false_r in H. cbn in H. lia. }
+    constructor.
+    - rewrite Ed. exact LD.
+    - exact W'.
+    - intro id. specialize (LU id). specialize (ET id). lia.
+    - intros id H. rewrite En in H. specialize (LF id H). specialize (ET id). lia.
+    - intros id H. rewrite Es. destruct (N.eqb id id0) eqn:E.
+      + apply N.eqb_eq in E. subst id.
+        destruct Hnd as [Z|[[G0 G1]|Hx]].
+        * specialize (ET id0). lia.
+        * exfalso. pose proof (EP gS id0) as HP. rewrite N.eqb_refl, G0, G1 in HP. cbn in HP.
+          specialize (LU id0). unfold TT in H, LU. rewrite EQ, EI in H. unfold CS in *. lia.
+        * apply Hx, LN. specialize (ET id0). lia.
+      + apply LN. specialize (ET id). lia.
+    - intros id H. rewrite EI in H. rewrite Ecan.
+      destruct (N.eq_dec id id0) as [->|Hne].
+      + destruct (LC id0 H) as [X|X]; [left; apply in_or_app; left; exact X|].
+        pose proof (EP gA id0) as HP. rewrite N.eqb_refl in HP. unfold CA in *.
+        destruct (gA p0) eqn:G0; destruct (gA p1) eqn:G1; cbn [andb b2n] in HP; try (right; lia).
+        destruct (Hcov eq_refl eq_refl) as [Y|Y]; [left; apply in_or_app; right; exact Y|lia].
+      + destruct (LC id H) as [X|X]; [left; apply in_or_app; left; exact X|].
+        right. unfold CA in *. rewrite (Eo gA id Hne). exact X.
+    - intros id H. rewrite EQ in H. rewrite Es.
+      destruct (N.eqb id id0) eqn:E.
+      + apply N.eqb_eq in E. subst id.
+        destruct Hrx as [Z|[Rx|[Gw Rx]]]; [lia|left; exact Rx|].
+        destruct (LQ id0 H) as [X|X]; [left; apply Rx, X|right].
+        pose proof (EP gW id0) as HP. rewrite N.eqb_refl in HP. unfold CW in *.
+        destruct (gW p0) eqn:G0; [rewrite (Gw eq_refl) in HP|destruct (gW p1)]; cbn [andb b2n] in HP; lia.
+      + apply N.eqb_neq in E. destruct (LQ id H) as [X|X]; [left; exact X|right].
+        unfold CW in *. rewrite (Eo gW id E). exact X.
+  Qed.
+End User.
